@@ -336,6 +336,32 @@ def check_market_orders(repo, rep):
         if ex != ["M0", "M1"] or left:
             rep.violation(rid, "execute_pending_market_orders", f"flush executed {ex} of [M0, M1] and left {left!r} queued")
         rep.instance(rid, "execute_pending_market_orders", {"executed": ex})
+    # a MARKET order submitted by the fill hook of an order that is being flushed is itself executed by that flush (it "is filled at
+    # the current price at the moment it is submitted, before any later candle is processed")
+
+    def flush_reacting(it):
+        orders = [Obj("Order", name=f"M{i}", attrs={}) for i in range(3)]
+        stt = W.obj_of(repo, "jesse/store/state_orders.py", "OrdersState", "store.orders", {"to_execute": list(orders[:2])})
+
+        def ex(oo):
+            def f(i, a, k):
+                i.event("executed", oo.name)
+                if oo.name == "M0":           # its fill hook submits M2 (Broker -> Sandbox -> queue)
+                    i.call(i.getattr(i.getattr(stt, "to_execute"), "append"), [orders[2]], {})
+            return f
+        for o in orders:
+            W.bind(o, "execute", ex(o))
+        it.state = stt
+        return stt
+    outs = W.run_function(repo, "jesse/store/state_orders.py", "OrdersState.execute_pending_market_orders",
+                          lambda it: ([], {}), self_obj_factory=flush_reacting)
+    for out in outs:
+        ex = [e[1] for e in out.events if e[0] == "executed"]
+        left = [getattr(x, "name", "?") for x in (out.interp.state.attrs.get("to_execute") or []) if getattr(x, "name", None) not in ex]
+        if sorted(ex) != ["M0", "M1", "M2"] or left:
+            rep.violation(rid, "execute_pending_market_orders|reaction", f"a MARKET order (M2) queued by the fill hook of M0 during the flush: the flush executed {ex} and left "
+                                                                           f"{left} queued - M2 waits for the next minute's flush and fills a candle late")
+        rep.instance(rid, "execute_pending_market_orders|reaction", {"executed": ex})
     # Strategy._check flushes on every non-raising path, after _update_position
     from vlib.traces import Tracer, Cfg, make_inliner, RAISE
     smod = repo.module("jesse/strategies/Strategy.py")
